@@ -9,8 +9,9 @@ PID = "C02"
 IMPORTS = "From OV Require Import Model.Vector Model.Matrix Model.MatOps Model.Solve."
 MODEL_VO = ["Model/Solve.vo"]
 RULE = ("square matrices of order 1..8 over Rat/f64/Complex: dense, sparse-patterned, permutation-like (odd and even numbers of exchanges), "
-        "triangular, singular (rank n-1, rank <= n-2, zero rows/columns, all-ones); kinds det, inverse, lu; distinct = distinct executor line; "
-        "non-trivial = order >= 2")
+        "triangular, singular (rank n-1, rank <= n-2, zero rows/columns, all-ones); kinds det, inverse, lu; adversarial family cplx-extreme-scale "
+        "(well-conditioned Complex<f64> matrices with |z| in 1e-200..1e-155 and 1e155..1e200: recorded finding cplx-sqmod-range); "
+        "distinct = distinct executor line; non-trivial = order >= 2")
 TRUSTED = c01.TRUSTED
 ASSUMPTIONS = ["Rust semantics of Vec/usize as modelled", "float accuracy of det/inverse is searched, not proved",
                "'matrix unchanged' is observed by the executor (snapshot before/after); a value model satisfies it vacuously",
@@ -39,7 +40,11 @@ MANIFEST = dict(
     note=("Partial: rounding accuracy of det/inverse over f64/Complex<f64> is tied (bitwise against the float model) and searched (1e-10/1e-9 "
           "scaled tolerances), not proved. 'Matrix left intact' is true by typing in a value model; in Rust it is a run-time observation of the "
           "executor (snapshot before/after). PivLaws (abs x = 0 <-> x = 0; x <> 0 -> 0 < |x|; not |x| < 0) is an auxiliary hypothesis the code "
-          "genuinely needs (the skip of a zero pivot column is decided by Signed::abs and PartialOrd); it is proved for Qc, R, C and mathcomp's rat."),
+          "genuinely needs (the skip of a zero pivot column is decided by Signed::abs and PartialOrd); it is proved for Qc, R, C and mathcomp's rat. "
+          "Recorded finding (open, key cplx-sqmod-range, decided from the input): over Complex<f64> the modulus and the division square the "
+          "components unscaled, so for entries/pivots with re^2+im^2 outside the normal f64 range inverse/determinant fail on well-conditioned "
+          "input (witnesses corpus/C02/kf_cplx_scale_*.json run on every check and print one KNOWN-FINDING line); the float instance simply does "
+          "not meet PivLaws there."),
     technique=("Coq 8.16 proof over an abstract field (loop invariants of the in-place LU, substitution loops as written, checked indexing) + "
                "mathcomp 1.15 bridge for \\det / mulmx1C + model/implementation differential execution (vm_compute vs Rust executor) + exact python oracle"),
     design="7 (C02), Appendix E (statements gain PivLaws; see Props/C02.v header)")
@@ -127,6 +132,33 @@ def generate(rng, tier):
                 if elt == 'cplx': A = [complex(x, c01.fval(g) if g.chance(1, 2) else 0.0) for x in A]
                 for kind in ("det", "inverse"):
                     cases.append(mk(elt, kind, n, A, "%s-%s-%s" % (elt, fam, kind), n >= 2))
+    # adversarial: Complex<f64> at magnitudes where re^2 + im^2 leaves the f64 range (recorded finding cplx-sqmod-range);
+    # well-conditioned patterns, so the exact answer is representable and the property's float half applies
+    g = rng.fork("cplx-extreme-scale")
+    for t in range(max(12, N // 2)):
+        n = 1 + (t % 6)
+        k = g.range(-200, -155) if t % 2 == 0 else g.range(155, 200)
+        sc = 10.0 ** k
+        pat = ("diag", "dominant", "dominant-rowperm")[t % 3]
+        A = [complex(0.0, 0.0)] * (n * n)
+        for i in range(n):
+            for j in range(n):
+                if i == j:
+                    A[i*n+j] = complex((n + 2 + g.below(5)) * (1 if g.chance(1, 2) else -1), g.range(-1, 1))
+                elif pat != "diag":
+                    A[i*n+j] = complex(g.range(-1, 1), g.range(-1, 1))
+        if pat == "dominant-rowperm":
+            p = g.shuffle(range(n))
+            A = [A[p[i]*n+j] for i in range(n) for j in range(n)]
+        A = [z * sc for z in A]
+        cases.append(mk('cplx', "inverse", n, A, "cplx-extreme-scale-inverse", n >= 2))
+    for t in range(max(6, N // 4)):          # one tiny column, the rest O(1): the determinant itself is representable
+        n = 2 + (t % 4)
+        tcol = 10.0 ** g.range(-200, -163)
+        A = [complex(g.range(1, 4) * (1 if g.chance(1, 2) else -1), g.range(-2, 2)) for _ in range(n * n)]
+        for i in range(n): A[i*n+i] += complex(n + 3, 0)
+        for i in range(n): A[i*n+0] = A[i*n+0] * tcol
+        cases.append(mk('cplx', "det", n, A, "cplx-extreme-scale-det", True))
     # non-square: rejected
     g = rng.fork("bad")
     for r in range(0, 4):
@@ -168,6 +200,60 @@ def cdet_exact(A, n):
             if f != (0, 0):
                 for j in range(k, n): M[i][j] = sub(M[i][j], mul(f, M[k][j]))
     return det
+
+def det_scale(absA, n):
+    """error scale of a determinant computed by elimination with partial pivoting: the smaller of the products of the row sums and of
+    the column sums of |A| (both bound every term of the Leibniz expansion; pivoting by magnitude commutes with column scaling, so the
+    column form is the natural one; exact, so that it neither under- nor overflows)"""
+    pr = Fraction(1); pc = Fraction(1)
+    for i in range(n): pr *= sum(absA[i*n+j] for j in range(n))
+    for j in range(n): pc *= sum(absA[i*n+j] for i in range(n))
+    return min(pr, pc)
+
+def ffmt(x):
+    try: return "%.6g" % float(x)
+    except OverflowError: return "~1e%d" % (len(str(abs(x.numerator))) - len(str(x.denominator)))
+
+# ---- recorded finding (KNOWN_FINDINGS.txt, key cplx-sqmod-range): Complex<f64> modulus and division square the components unscaled
+MIN_NORMAL = Fraction(2) ** -1022
+MAX_F64 = Fraction(2) ** 1024
+def sqmod_out_of_range(re, im):
+    s = Fraction(re) ** 2 + Fraction(im) ** 2
+    return s != 0 and (s < MIN_NORMAL or s >= MAX_F64)
+
+def cplx_exact_pivots(A, n):
+    """the pivots of exact elimination with partial pivoting by true modulus (what the divisions of inverse/backsolve divide by)"""
+    def mul(a, b): return (a[0]*b[0] - a[1]*b[1], a[0]*b[1] + a[1]*b[0])
+    def sub(a, b): return (a[0]-b[0], a[1]-b[1])
+    def div(a, b):
+        d = b[0]*b[0] + b[1]*b[1]
+        return ((a[0]*b[0] + a[1]*b[1]) / d, (a[1]*b[0] - a[0]*b[1]) / d)
+    M = [[(Fraction(A[i*n+j].real), Fraction(A[i*n+j].imag)) for j in range(n)] for i in range(n)]
+    piv = []
+    for k in range(n):
+        p = max(range(k, n), key=lambda i: M[i][k][0]**2 + M[i][k][1]**2)
+        if M[p][k] == (0, 0): continue
+        M[p], M[k] = M[k], M[p]
+        piv.append(M[k][k])
+        for i in range(k + 1, n):
+            f = div(M[i][k], M[k][k])
+            if f != (0, 0):
+                for j in range(k, n): M[i][j] = sub(M[i][j], mul(f, M[k][j]))
+    return piv
+
+def finding_key(case, desc, items):
+    """cause key of a failure, decided from the INPUT (and the exact pivots it leads to), never from the mere fact of failing:
+    `cplx-sqmod-range` iff the element type is Complex<f64> and some input entry or some exact pivot z has re^2 + im^2 outside the
+    normal f64 range (underflows to 0/subnormal, or overflows)."""
+    m = case.meta
+    if case.elt != 'cplx' or m.get("bad") or "A" not in m: return None
+    A, n = m["A"], m["n"]
+    try:
+        if any(sqmod_out_of_range(z.real, z.imag) for z in A): return "cplx-sqmod-range"
+        if any(sqmod_out_of_range(p[0], p[1]) for p in cplx_exact_pivots(A, n)): return "cplx-sqmod-range"
+    except (OverflowError, ValueError):      # non-finite input entries: not this class
+        return None
+    return None
 
 def lu_oracle(items, n, A):
     """the statement of lu_spec on the implementation's answer (exact): P is a permutation matrix whose sign is (-1)^pivots and
@@ -212,15 +298,15 @@ def oracle(case, items):
             if v != d: return "determinant %s differs from the exact determinant %s" % (v, d)
         elif elt == 'f64':
             if not math.isfinite(v): return "determinant is %r; exact determinant is %s" % (v, d)
-            scale = 1.0
-            for i in range(n): scale *= max(1e-300, sum(abs(float(A[i*n+j])) for j in range(n)))
-            if abs(v - float(d)) > 1e-10 * scale: return "determinant %r differs from exact %r beyond 1e-10*prod(row sums)=%g" % (v, float(d), 1e-10 * scale)
+            scale = det_scale([abs(Fraction(x)) for x in A], n)
+            if abs(Fraction(v) - d) > Fraction(1, 10**10) * scale: return "determinant %r differs from exact %r beyond 1e-10*min(prod row sums, prod column sums)=%g" % (v, float(d), 1e-10 * float(scale))
         else:
             if not isfinite(v): return "complex determinant is not finite"
-            dr, di = cdet_exact(A, n); dc = complex(float(dr), float(di))
-            scale = 1.0
-            for i in range(n): scale *= max(1e-300, sum(abs(A[i*n+j]) for j in range(n)))
-            if abs(v - dc) > 1e-10 * scale: return "complex determinant %r differs from exact %r beyond 1e-10*prod(row sums)=%g" % (v, dc, 1e-10 * scale)
+            dr, di = cdet_exact(A, n)
+            scale = det_scale([abs(Fraction(x.real)) + abs(Fraction(x.imag)) for x in A], n)
+            er, ei = Fraction(v.real) - dr, Fraction(v.imag) - di
+            if max(abs(er), abs(ei)) > Fraction(1, 10**10) * scale:
+                return "complex determinant %r differs from exact (%s, %s) beyond 1e-10*min(prod row sums, prod column sums)=%s" % (v, ffmt(dr), ffmt(di), ffmt(scale))
         return None
     if kind == "inverse":
         if exact and d == 0:
